@@ -562,6 +562,54 @@ def rename_locals(src, qualname):
         return '\n'.join(lines[:start] + [text] + lines[end:])
 
 
+def whole_file(src, kind):
+    """Behaviour-preserving whole-file AST rewrites (the file is re-emitted by ast.unparse):
+    'swap-and'      a & b -> b & a (boolean masks commute)
+    'swap-branches' if c: A else: B -> if not c: B else: A
+    'expand-aug'    x += y -> x = x + y  (names, attributes and subscripts)
+    """
+    import ast
+    import copy
+    tree = ast.parse(src)
+
+    class SwapAnd(ast.NodeTransformer):
+        def visit_BinOp(self, n):
+            self.generic_visit(n)
+            if isinstance(n.op, ast.BitAnd):
+                n.left, n.right = n.right, n.left
+            return n
+
+    class SwapBranches(ast.NodeTransformer):
+        def visit_If(self, n):
+            self.generic_visit(n)
+            if n.orelse and not (len(n.orelse) == 1 and isinstance(n.orelse[0], ast.If)):
+                t = n.test
+                if isinstance(t, ast.UnaryOp) and isinstance(t.op, ast.Not):
+                    nt = t.operand
+                else:
+                    nt = ast.UnaryOp(op=ast.Not(), operand=t)
+                return ast.copy_location(ast.If(test=nt, body=n.orelse, orelse=n.body), n)
+            return n
+
+    class ExpandAug(ast.NodeTransformer):
+        def visit_AugAssign(self, n):
+            self.generic_visit(n)
+            load = copy.deepcopy(n.target)
+            for sub in ast.walk(load):
+                if hasattr(sub, 'ctx'):
+                    sub.ctx = ast.Load()
+            return ast.copy_location(ast.Assign(
+                targets=[n.target], value=ast.BinOp(left=load, op=n.op, right=n.value)), n)
+
+    T = {'swap-and': SwapAnd, 'swap-branches': SwapBranches, 'expand-aug': ExpandAug}[kind]
+    tree = T().visit(tree)
+    ast.fix_missing_locations(tree)
+    return ast.unparse(tree) + '\n'
+
+
+_WHOLE = [(f_, k) for f_ in (S, U, N, B, PS, PR, NE) for k in ('swap-and', 'swap-branches',
+                                                              'expand-aug')]
+
 _RENAME_TARGETS = [
     (S, 'Sampler.add_bound'), (S, 'Sampler.add_samples'), (S, 'Sampler.sample_shell'),
     (S, 'Sampler.run'), (S, 'Sampler.posterior'), (S, 'Sampler.evaluate_likelihood'),
@@ -572,6 +620,9 @@ _RENAME_TARGETS = [
     (PR, 'Prior.add_parameter'), (PR, 'Prior.physical_to_dictionary'),
     (NE, 'NeuralBound.contains'), (B, 'UnitCubeEllipsoidMixture.sample'),
 ]
+
+BENIGN += [dict(id='%s:%s' % (k, f_.split('/')[-1]), file=f_, old='import', new=None,
+                fn=('whole_file', k), props=ALL.split()) for f_, k in _WHOLE]
 
 BENIGN += [dict(id='rename-locals:' + q, file=f_, old='def ' + q.split('.')[1], new=None,
                 fn=('rename_locals', q), props=ALL.split()) for f_, q in _RENAME_TARGETS]
